@@ -39,7 +39,8 @@ ENCODING = [
     [1, 32, 64],
 ]
 
-VALID = rf"^{re.escape(MAGIC)}[{re.escape(''.join(NUM_ALPHA))}]{{4,}}$"
+# \Z rather than $: $ would also accept a trailing newline, which is not in the alphabet
+VALID = rf"^{re.escape(MAGIC)}[{re.escape(''.join(NUM_ALPHA))}]{{4,}}\Z"
 
 
 def juniper_decrypt(crypt: str) -> str:
